@@ -61,6 +61,7 @@ pub fn evaluate_pair(case: &PairCase, run: &PairRun, focus: Focus) -> Outcome {
         &C19Ctx { tap: &tap, events: &run.events, stats: &run.stats, settled, client_handles_gone: settled && case.drop_send_request_at_end, c2s_shutdown, reset_max, orphans: &run.orphans },
         &mut out,
     );
+    check_queued_requests_sent(&tap, &av, &run.events, run.end == RunEnd::Quiescent && run.panic.is_none() && case.fault.is_none(), &mut out);
     // C03: no receive window stays exhausted while the application holds nothing
     for side in [Side::Client, Side::Server] {
         crate::eng_raw2::check_exhausted_side(side, case, run, &tap, &mut out);
